@@ -262,9 +262,20 @@ impl Engine for C12c {
             3 => u32::MAX - r.below(130) as u32,
             _ => r.next() as u32,
         };
-        let n = if r.chance(70) { r.range(1, 12) } else { r.range(12, 60) };
+        let n = if r.chance(60) { r.range(1, 12) } else if r.chance(60) { r.range(12, 60) } else { r.range(60, 200) };
         let mut arrivals: Vec<(i32, u8)> = vec![];
         let mut cur: i32 = 0;
+        // Long steady phase first (a full window of completely received ticks), as in a long session.
+        if r.chance(25) {
+            let warm = r.range(60, 140) as i32;
+            let count = r.weighted(&[7, 2, 1]) as u8 + 1;
+            for _ in 0..warm {
+                cur += 1;
+                for _ in 0..count {
+                    arrivals.push((cur, count));
+                }
+            }
+        }
         let mut pending: Vec<(i32, u8)> = vec![];
         for _ in 0..n {
             // next server tick: small step, or a gap around the window size
